@@ -803,4 +803,65 @@ theorem quiet_delta (p : Nat) : ∀ (ops : List Op) (w : World), Clean p w → (
       exact ⟨l ++ l2, by show (run (step w op) r).log = _; rw [g1, h1, List.append_assoc], c2.append g2, g3⟩
     · exact absurd (by rw [ha]; exact List.mem_cons_self) (hno a)
 
+/-! ### C19 on the wire: an operation run by one protocol writes nothing to another protocol's transport -/
+
+/-- whatever the state: the operation is run by protocol `q` (an API call on it, bytes received on it, its loss report, one of its
+    timers) or by none (building a protocol, the factory's counters, a handshake timeout), and `p` is another protocol: nothing is
+    written to `p`'s transport -/
+theorem other_protocol_handler (p : Nat) (w : World) (op : Op) (hop : ∀ q, op.proto? w = some q → q ≠ p) :
+    ∃ l, (op.handler w).1.log = w.log ++ l ∧ NoW p l := by
+  have hoa : ∀ (s : Step), OA p s → ∃ l, (s w).1.log = w.log ++ l ∧ NoW p l := by
+    intro s hs
+    obtain ⟨l, a1, a2, _⟩ := hs w
+    exact ⟨l, a1, a2⟩
+  cases op with
+  | build a => exact ⟨[], by simp [Op.handler, buildProtocol, Step.mod], NoW.nil p⟩
+  | jit v => exact hoa _ (oa_mod (fun _ => rfl) (fun _ => rfl) (fun _ => rfl))
+  | setid v => exact hoa _ (oa_mod (fun _ => rfl) (fun _ => rfl) (fun _ => rfl))
+  | sethandlers q m => exact hoa _ (oa_setProto _ _ (fun _ _ h => h))
+  | connect q a => exact hoa _ (oa_apiConnect (hop q rfl) a)
+  | disconnect q => exact hoa _ (oa_apiDisconnect (hop q rfl))
+  | publish q t pl qs r => exact hoa _ (oa_apiPublish (hop q rfl) t pl qs r)
+  | subscribe q a qs => exact hoa _ (oa_apiSubscribe (hop q rfl) a qs)
+  | unsubscribe q a => exact hoa _ (oa_apiUnsubscribe (hop q rfl) a)
+  | setwin q n => exact hoa _ (oa_apiSetWindow q n)
+  | settimeout q n => exact hoa _ (oa_apiSetTimeout q n)
+  | setbw q b f => exact hoa _ (oa_apiSetBandwith q b f)
+  | recv q d => exact hoa _ (oa_dataReceived (hop q rfl) d)
+  | lost q r => exact hoa _ (oa_connectionLost q r)
+  | fire t =>
+    have hh : (Op.fire t).handler = fireTimer t := rfl
+    rw [hh]
+    cases ht : w.timers.get? t with
+    | none =>
+      have e : fireTimer t w = emit .nofire w := by simp only [fireTimer, Step.read, ht]
+      rw [e]; exact hoa _ (oa_emit .nofire rfl)
+    | some tm =>
+      have e : fireTimer t w = (if tm.status = TStatus.pending then
+          Step.mod (fun w => { w with now := max w.now tm.due, timers := w.timers.set t { tm with status := .called } }) ;; runTimer tm.kind
+        else emit .nofire) w := by simp only [fireTimer, Step.read, ht]
+      rw [e]
+      split
+      · have hk : ¬ tm.kind.of p := by
+          intro hk
+          cases hkind : tm.kind with
+          | connack cr => rw [hkind] at hk; exact hk
+          | onDisc q r => rw [hkind] at hk; exact hk
+          | pingLoop q => rw [hkind] at hk; exact hop q (by simp only [Op.proto?, ht, hkind]) hk
+          | pingAlarm q => rw [hkind] at hk; exact hop q (by simp only [Op.proto?, ht, hkind]) hk
+          | retry q rid => rw [hkind] at hk; exact hop q (by simp only [Op.proto?, ht, hkind]) hk
+        obtain ⟨l, a1, a2, _⟩ := oa_runTimer tm.kind hk { w with now := max w.now tm.due, timers := w.timers.set t { tm with status := .called } }
+        exact ⟨l, a1, a2⟩
+      · exact hoa _ (oa_emit .nofire rfl)
+
+theorem other_protocol_step (p : Nat) (w : World) (op : Op) (hop : ∀ q, op.proto? w = some q → q ≠ p) :
+    ∃ l, (step w op).log = w.log ++ l ∧ NoW p l := by
+  obtain ⟨l, a1, a2⟩ := other_protocol_handler p w op hop
+  unfold step
+  rcases hw : op.handler w with ⟨w', _ | e⟩
+  · rw [hw] at a1; exact ⟨l, a1, a2⟩
+  · rw [hw] at a1
+    refine ⟨l ++ [if op.isReactor then Obs.esc e else Obs.raised e], by simp only; rw [a1, List.append_assoc], a2.append fun o ho => ?_⟩
+    rw [List.mem_singleton.mp ho]; split <;> rfl
+
 end Mqtt
